@@ -24,9 +24,20 @@ FUEL = 400
 
 # ------------------------------------------------------------------ implementation side
 
+def _sortinner(c):
+    if c[0] == 'L':
+        items = tuple(_sortinner(x) for x in c[2])
+        if items and all(x[0] == 'S' for x in items) and not c[1]:
+            items = tuple(sorted(items))
+        return ('L', c[1], items)
+    return c
+
+
 def _post(v, post):
     if post == 'sort' and v[0] == 'L':
         return ('L', v[1], tuple(sorted(v[2], key=repr)))
+    if post == 'sortinner':
+        return _sortinner(v)
     return v
 
 
